@@ -77,6 +77,44 @@ def posmask(n, positions):
     return np.array([(i + 1) in s for i in range(n)], dtype=bool)
 
 
+# Memory-layout variants of an argument (spec section 6: the outcome depends on the values only).
+# 'C' plain copy; 'ro' read-only; 'strided' every second element of a larger array along every axis;
+# 'F' a transposed view of a C array (Fortran order; 1-D: strided); 'swap' non-native byte order;
+# '0d' arrays plain, scalar arguments handed over as 0-d arrays / numpy integers.
+VARIANTS = ['C', 'ro', 'strided', 'F', 'swap', '0d']
+
+
+def lay(a, v):
+    a = np.asarray(a)
+    if v == 'ro':
+        b = a.copy()
+        b.setflags(write=False)
+        return b
+    if v == 'strided' or (v == 'F' and a.ndim < 2):
+        big = np.zeros(tuple(2 * n for n in a.shape), dtype=a.dtype)
+        sl = tuple(slice(None, None, 2) for _ in a.shape)
+        big[sl] = a
+        return big[sl]
+    if v == 'F':
+        return np.ascontiguousarray(a.T).T
+    if v == 'swap':
+        return a.astype(a.dtype.newbyteorder())
+    return a.copy()
+
+
+def sc0(x, v, kind=float):
+    """a scalar argument: plain Python number, or (variant '0d') a 0-d array / numpy integer."""
+    if v != '0d':
+        return x
+    return np.int64(x) if kind is int else np.array(x)
+
+
+def variant_of(ctx_seed, c):
+    """Rotate the variants over the cases, by seed (deterministic in the case's content)."""
+    import zlib
+    return VARIANTS[(zlib.crc32(repr(sorted((k, repr(x)) for k, x in c.items())).encode()) + ctx_seed) % len(VARIANTS)]
+
+
 def exc_name(ex):
     return '%s: %s' % (type(ex).__name__, str(ex)[:120])
 
@@ -105,7 +143,7 @@ def reject_convs(c):
     return convs
 
 
-def reject_call(c, conv, use_none):
+def reject_call(c, conv, use_none, v='C'):
     """Concretise a spec call: model is an arbitrary fixed ramp, data = model + diff."""
     from pydl.pydlutils.math import djs_reject
     n = c['n']
@@ -116,20 +154,21 @@ def reject_call(c, conv, use_none):
     wgt = sc if c['mode'] == 'weight' else [1 / x if x else None for x in sc]
     kw = {}
     if conv == 'sigma':
-        kw['sigma'] = np.array([float(x) for x in sig], dtype='d')
+        kw['sigma'] = lay(np.array([float(x) for x in sig], dtype='d'), v)
     elif conv == 'sigma-scalar':
-        kw['sigma'] = float(sig[0])
+        kw['sigma'] = sc0(float(sig[0]), v)
     else:
-        kw['invvar'] = np.array([float(x * x) for x in wgt], dtype='d')
+        kw['invvar'] = lay(np.array([float(x * x) for x in wgt], dtype='d'), v)
     for name in ('lower', 'upper', 'maxdev'):
         if c[name]:
-            kw[name] = num(c[name][0])
+            kw[name] = sc0(num(c[name][0]), v)
     full = list(range(1, n + 1))
     if not (use_none and sorted(c['inmask']) == full):
-        kw['inmask'] = posmask(n, c['inmask'])
+        kw['inmask'] = lay(posmask(n, c['inmask']), v)
     if not (use_none and sorted(c['prev']) == full):
-        kw['outmask'] = posmask(n, c['prev'])
-    return reject_observe(lambda: djs_reject(data, model, sticky=c['sticky'], grow=c['grow'], **kw), n)
+        kw['outmask'] = lay(posmask(n, c['prev']), v)
+    data, model = lay(data, v), lay(model, v)
+    return reject_observe(lambda: djs_reject(data, model, sticky=c['sticky'], grow=sc0(c['grow'], v, int), **kw), n)
 
 
 def reject_observe(fn, n):
@@ -180,7 +219,7 @@ def reject_classify(c, exp, obs):
 # ----------------------------------------------------------------------------------------------
 # djs_maskinterp
 # ----------------------------------------------------------------------------------------------
-def interp_call(c, variant):
+def interp_call(c, variant, v='C'):
     """c: y, bad, x, const [, shape, axis].  variant: 'interp1' (helper), 'nd' (djs_maskinterp),
     mask dtype alternates between bool and int32."""
     from pydl.pydlutils.image import djs_maskinterp, djs_maskinterp1
@@ -189,7 +228,8 @@ def interp_call(c, variant):
     y = np.array([fl(q) for q in c['y']], dtype='d').reshape(shape)
     m = posmask(size, c['bad'])
     mask = (m if variant.endswith('bool') else m.astype(np.int32)).reshape(shape)
-    x = np.array([fl(q) for q in c['x']], dtype='d').reshape(shape) if c['x'] else None
+    x = lay(np.array([fl(q) for q in c['x']], dtype='d').reshape(shape), v) if c['x'] else None
+    y, mask = lay(y, v), lay(mask, v)
     y0 = y.copy()
     try:
         if variant.startswith('interp1'):
@@ -225,10 +265,10 @@ def interp_judge(c, exp, obs):
 # ----------------------------------------------------------------------------------------------
 # aesthetics
 # ----------------------------------------------------------------------------------------------
-def aes_call(c):
+def aes_call(c, v='C'):
     from pydl.pydlspec2d.spec2d import aesthetics
-    flux = np.array([fl(q) for q in c['flux']], dtype='d')
-    ivar = np.array(c['ivar'], dtype='d')
+    flux = lay(np.array([fl(q) for q in c['flux']], dtype='d'), v)
+    ivar = lay(np.array(c['ivar'], dtype='d'), v)
     f0 = flux.copy()
     try:
         with np.errstate(all='ignore'):
@@ -260,12 +300,15 @@ def aes_judge(c, exp, obs):
 # ----------------------------------------------------------------------------------------------
 # djs_median(boundary='reflect')
 # ----------------------------------------------------------------------------------------------
-def median_call(arr, w, dtype):
+def median_call(arr, w, dtype, v='C'):
     from pydl.pydlutils.math import djs_median
     a = np.array(arr, dtype=dtype)
+    if v == 'swap' and a.ndim == 1:
+        v = 'ro'      # 1-D: scipy.signal.medfilt refuses non-native byte order (reported, not asserted)
+    a = lay(a, v)
     a0 = a.copy()
     try:
-        out = djs_median(a, width=w, boundary='reflect')
+        out = djs_median(a, width=sc0(w, v, int), boundary='reflect')
     except Exception as ex:
         return {'err': True, 'exc': exc_name(ex), 'out': None}
     out = np.asarray(out)
@@ -329,17 +372,18 @@ def sky_dtypes(flags):
     return [d for d, mx in SKY_DTYPES if top <= mx]
 
 
-def sky_call(ctx, c, dtype):
+def sky_call(ctx, c, dtype, v='C'):
     import pydl.pydlutils.sdss as sdss
     from pydl.pydlspec2d.spec1d import skymask
     sdss.maskbits = sky_table(ctx, c['tbl'])
     ivar = np.array(c['ivar'], dtype='d')
     vals = [[sum(1 << b for b in px) for px in row] for row in c['flags']]
     ormask = np.array(vals, dtype=np.uint64).astype(dtype)
-    andmask = np.zeros(ormask.shape, dtype=dtype)
+    andmask = lay(np.zeros(ormask.shape, dtype=dtype), v)
+    ivar, ormask = lay(ivar, v), lay(ormask, v)
     iv0, om0 = ivar.copy(), ormask.copy()
     try:
-        out = skymask(ivar, andmask, ormask, ngrow=c['ngrow'])
+        out = skymask(ivar, andmask, ormask, ngrow=sc0(c['ngrow'], v, int))
     except Exception as ex:
         return {'err': True, 'exc': exc_name(ex), 'out': None}
     out = np.asarray(out)
@@ -372,40 +416,42 @@ def sky_classify(dtype, obs):
 # ----------------------------------------------------------------------------------------------
 # one spec case -> all conventions; returns list of (conv, why, obs, finding)
 # ----------------------------------------------------------------------------------------------
-def run_case(ctx, c, exp, idx=0, deferred=None):
+def run_case(ctx, c, exp, idx=0, deferred=None, lv=None):
     kind = c['kind']
     res = []
+    lv = lv or variant_of(ctx.seed, c)
     if kind in ('reject', 'rejnum'):
         for conv in reject_convs(c):
             for use_none in ((False, True) if ((sum(c['inmask']) + sum(c['prev']) + c['grow'] + c['n']) % 2 == 0) else (True,)):
-                obs = reject_call(c, conv, use_none)
+                obs = reject_call(c, conv, use_none, lv)
                 why = reject_judge(c, exp, obs)
                 if why == 'defer':
                     if deferred is not None:
                         deferred.append((c, exp, conv, reject_record(c, obs, conv)))
                     why = ''
-                res.append((conv + ('/None-masks' if use_none else ''), why, obs, reject_classify(c, exp, obs) if why else None))
+                res.append((conv + ('/None-masks' if use_none else '') + '@' + lv, why, obs,
+                            reject_classify(c, exp, obs) if why else None))
     elif kind in ('interp1', 'interpnd'):
         variants = ['nd-bool', 'nd-int'] if kind == 'interpnd' else ['interp1-int', 'interp1-bool', 'nd-int']
         for v in variants:
-            obs = interp_call(c, v)
-            res.append((v, interp_judge(c, exp, obs), obs, None))
+            obs = interp_call(c, v, lv)
+            res.append((v + '@' + lv, interp_judge(c, exp, obs), obs, None))
     elif kind == 'aesth':
-        obs = aes_call(c)
-        res.append(('float64', aes_judge(c, exp, obs), obs, None))
+        obs = aes_call(c, lv)
+        res.append(('float64@' + lv, aes_judge(c, exp, obs), obs, None))
     elif kind == 'median':
         for dt in ('float64', 'int64', 'float32'):
-            obs = median_call(c['a'], c['w'], dt)
-            res.append((dt, median_judge(exp, obs), obs, None))
+            obs = median_call(c['a'], c['w'], dt, lv)
+            res.append((dt + '@' + lv, median_judge(exp, obs), obs, None))
     elif kind == 'median2':
         for dt in ('float64', 'float32'):
-            obs = median_call(c['A'], c['w'], dt)
-            res.append((dt, median_judge(exp, obs), obs, None))
+            obs = median_call(c['A'], c['w'], dt, lv)
+            res.append((dt + '@' + lv, median_judge(exp, obs), obs, None))
     elif kind == 'sky':
         for dt in sky_dtypes(c['flags']):
-            obs = sky_call(ctx, c, dt)
+            obs = sky_call(ctx, c, dt, lv)
             why = sky_judge(exp, obs)
-            res.append((dt, why, obs, sky_classify(dt, obs) if why else None))
+            res.append((dt + '@' + lv, why, obs, sky_classify(dt, obs) if why else None))
     else:
         raise core.MachineryError('unknown case kind %r' % kind)
     return res
@@ -459,7 +505,7 @@ def fail_class(kind, conv, why, finding):
     if finding:
         return '%s %s' % (kind, finding)
     head = why.split(':')[0] if why.startswith('raised') else why.split(' ')[0]
-    return '%s %s %s' % (kind, conv.split('/')[0], head)
+    return '%s %s %s' % (kind, conv.split('@')[0].split('/')[0], head)
 
 
 # ----------------------------------------------------------------------------------------------
@@ -507,27 +553,28 @@ def rec_reject(rng, n_chain=3):
     grow = rng.choice([0, 0, 1, 1, 2, 3, 4])
     pass_inmask = rng.random() < 0.8 or len(inmask) < n
     mdt = rng.choice([bool, bool, np.int32, np.uint8])      # "a value that evaluates to False" marks bad points
+    v = rng.choice(VARIANTS)
     recs = []
     for _ in range(n_chain):
         kw = {}
         if mode == 'invvar':
             scale = [Fraction(0) if z else 1 / s for s, z in zip(sig, zero_w)]
-            kw['invvar'] = np.array([float(s * s) for s in scale], dtype='d')
+            kw['invvar'] = lay(np.array([float(s * s) for s in scale], dtype='d'), v)
             recmode = 'weight'
         else:
             scale = sig
-            kw['sigma'] = float(sig[0]) if mode == 'sigma-scalar' else np.array([float(s) for s in sig], dtype='d')
+            kw['sigma'] = sc0(float(sig[0]), v) if mode == 'sigma-scalar' else lay(np.array([float(s) for s in sig], dtype='d'), v)
             recmode = 'sigma'
-        for name, v in lims.items():
-            if v is not None:
-                kw[name] = float(v) if Fraction(v).denominator != 1 else int(v)
+        for name, lim in lims.items():
+            if lim is not None:
+                kw[name] = sc0(float(lim) if Fraction(lim).denominator != 1 else int(lim), v)
         if pass_inmask:
-            kw['inmask'] = posmask(n, inmask).astype(mdt)
+            kw['inmask'] = lay(posmask(n, inmask).astype(mdt), v)
         if len(prev) < n or rng.random() < 0.7:
-            kw['outmask'] = posmask(n, prev).astype(mdt)
-        d_arr = np.array([float(v) for v in data], dtype='d')
-        m_arr = np.array([float(v) for v in model], dtype='d')
-        obs = reject_observe(lambda: djs_reject(d_arr, m_arr, sticky=sticky, grow=grow, **kw), n)
+            kw['outmask'] = lay(posmask(n, prev).astype(mdt), v)
+        d_arr = lay(np.array([float(x) for x in data], dtype='d'), v)
+        m_arr = lay(np.array([float(x) for x in model], dtype='d'), v)
+        obs = reject_observe(lambda: djs_reject(d_arr, m_arr, sticky=sticky, grow=sc0(grow, v, int), **kw), n)
         recs.append({'kind': 'reject', 'n': n, 'data': [fr(v) for v in data], 'model': [fr(v) for v in model],
                      'mode': recmode, 'scale': [fr(v) for v in scale],
                      'lower': [fr(Fraction(lims['lower']))] if lims['lower'] is not None else [],
@@ -562,7 +609,7 @@ def rec_interp(rng):
     const = rng.random() < 0.5
     variant = rng.choice(['interp1-int', 'interp1-bool']) if (nd == 1 and rng.random() < 0.5) else rng.choice(['nd-int', 'nd-bool'])
     c = {'y': [fr(v) for v in y], 'bad': bad, 'x': [fr(v) for v in x], 'const': const, 'shape': shape, 'axis': axis}
-    obs = interp_call(c, variant)
+    obs = interp_call(c, variant, rng.choice(VARIANTS))
     out, exact = [], True
     if not obs['err']:
         for p, v in enumerate(obs['out']):
@@ -582,7 +629,7 @@ def rec_aes(rng):
     ivar = [0 if rng.random() < dens else rng.randint(1, 3) for _ in range(n)]
     method = rng.choice(['traditional', 'noconst', 'mean', 'nothing'])
     c = {'flux': [fr(v) for v in flux], 'ivar': ivar, 'method': method}
-    obs = aes_call(c)
+    obs = aes_call(c, rng.choice(VARIANTS))
     out, exact = [], True
     allbad_mean = method == 'mean' and all(v == 0 for v in ivar)
     if not obs['err']:
@@ -602,13 +649,13 @@ def rec_median(rng):
         n = rng.randint(1, 12)
         w = rng.choice([v for v in (1, 3, 5, 7, 9) if v <= n])
         a = [rng.randint(-5, 5) for _ in range(n)]
-        obs = median_call(a, w, rng.choice(['float64', 'int64', 'int32']))
+        obs = median_call(a, w, rng.choice(['float64', 'int64', 'int32']), rng.choice(VARIANTS))
         rec = {'kind': 'median', 'a': a, 'w': w}
     else:
         nr, nc = rng.randint(3, 5), rng.randint(3, 5)
         w = 3
         a = [[rng.randint(-3, 3) for _ in range(nc)] for _ in range(nr)]
-        obs = median_call(a, w, 'float64')
+        obs = median_call(a, w, 'float64', rng.choice(VARIANTS))
         rec = {'kind': 'median2', 'A': a, 'w': w}
     exact = True
     out = []
@@ -659,7 +706,7 @@ def rec_sky(ctx, rng):
     ivar = [[rng.choice([0, 1, 2, 3, 7]) for _ in range(L)] for _ in range(nr)]
     c = {'tbl': tbl, 'ngrow': ngrow, 'ivar': ivar, 'flags': flags}
     dtype = rng.choice(sky_dtypes(flags))
-    obs = sky_call(ctx, c, dtype)
+    obs = sky_call(ctx, c, dtype, rng.choice(VARIANTS))
     out, exact = [], True
     if not obs['err']:
         o = np.asarray(obs['out'], dtype='d')
@@ -672,8 +719,117 @@ def rec_sky(ctx, rng):
             'out': out, 'exc': obs['exc']}
 
 
+# ---- pairs of calls on the same values in two memory layouts (spec section 6) -------------------
+def _vals(obs):
+    """abstracted outcome of an array-valued call: exact textual image of every output value."""
+    if obs['err']:
+        return {'err': True, 'out': [], 'exc': obs['exc']}
+    return {'err': False, 'out': [repr(float(x)) for x in np.asarray(obs['out'], dtype='d').reshape(-1)], 'exc': ''}
+
+
+def layout_exec(ctx, fn, args, v):
+    if fn == 'interp':
+        return _vals(interp_call(args, args['variant'], v))
+    if fn == 'aesth':
+        return _vals(aes_call(args, v))
+    if fn == 'median':
+        return _vals(median_call(args['a'], args['w'], args['dtype'], v))
+    if fn == 'sky':
+        return _vals(sky_call(ctx, args, args['dtype'], v))
+    raise core.MachineryError('layout_exec: ' + fn)
+
+
+def rec_layout(ctx, rng):
+    fn = rng.choice(['interp', 'interp', 'aesth', 'median', 'median', 'sky'])
+    if fn == 'interp':
+        nd = rng.choice([1, 2, 2, 3, 3])
+        shape = [rng.randint(2, 8)] if nd == 1 else [rng.randint(2, 4) for _ in range(nd)]
+        size = int(np.prod(shape))
+        x = [[v, 1] for v in rng.sample(range(-30, 60), size)] if rng.random() < 0.5 else []
+        args = {'shape': shape, 'axis': rng.randint(0, nd - 1), 'y': [[rng.randint(-8, 8), 1] for _ in range(size)],
+                'bad': [p + 1 for p in range(size) if rng.random() < 0.4], 'x': x, 'const': rng.random() < 0.5,
+                'variant': rng.choice(['nd-int', 'nd-bool'])}
+        rank = nd
+    elif fn == 'aesth':
+        n = rng.randint(2, 9)
+        args = {'flux': [[rng.randint(-8, 8), 1] for _ in range(n)], 'ivar': [0 if rng.random() < 0.4 else 2 for _ in range(n)],
+                'method': rng.choice(['traditional', 'noconst', 'mean', 'nothing'])}
+        rank = 1
+    elif fn == 'median':
+        if rng.random() < 0.5:
+            n = rng.randint(3, 11)
+            args = {'a': [rng.randint(-5, 5) for _ in range(n)], 'w': rng.choice([w for w in (3, 5, 7) if w <= n]),
+                    'dtype': rng.choice(['float64', 'int64', 'float32'])}
+            rank = 1
+        else:
+            nr, nc = rng.randint(3, 5), rng.randint(3, 5)
+            args = {'a': [[rng.randint(-3, 3) for _ in range(nc)] for _ in range(nr)], 'w': 3, 'dtype': 'float64'}
+            rank = 2
+    else:
+        tbl = {'BADSKYCHI': 27, 'REDMONSTER': 28, 'O1': 26, 'O2': 29}
+        nr, L = rng.randint(2, 4), rng.randint(3, 14)
+        flags = [[sorted({tbl[rng.choice(sorted(tbl))]}) if rng.random() < 0.2 else [] for _ in range(L)] for _ in range(nr)]
+        args = {'tbl': tbl, 'ngrow': rng.choice([0, 1, 2, 3, 24]), 'ivar': [[rng.randint(0, 7) for _ in range(L)] for _ in range(nr)],
+                'flags': flags, 'dtype': rng.choice(['int32', 'int64', 'uint64'])}
+        rank = 2
+    choices = ['F', 'F', 'strided', 'ro', 'swap'] if rank >= 2 else ['strided', 'ro', 'swap']
+    if fn == 'median' and rank == 1:
+        choices = ['strided', 'ro']
+    la, lb = 'C', rng.choice(choices)
+    return {'kind': 'layout', 'fn': fn, 'la': la, 'lb': lb, 'args': args,
+            'a': layout_exec(ctx, fn, args, la), 'b': layout_exec(ctx, fn, args, lb)}
+
+
+def rejnd_exec(args, grow, v):
+    from pydl.pydlutils.math import djs_reject
+    shape = tuple(args['shape'])
+    data = np.array([fl(q) for q in args['data']], dtype='d').reshape(shape)
+    model = np.array([fl(q) for q in args['model']], dtype='d').reshape(shape)
+    scale = np.array([float(x) for x in args['scale']], dtype='d').reshape(shape)
+    kw = {args['mode']: lay(scale, v), 'lower': args['lower'], 'upper': args['upper'], 'grow': grow}
+    if args['inmask']:
+        kw['inmask'] = lay(np.ones(shape, dtype=bool), v)
+    try:
+        out, qdone = djs_reject(lay(data, v), lay(model, v), **kw)
+    except Exception as ex:
+        return {'err': True, 'exc': exc_name(ex), 'out': [], 'qdone': False}
+    out = np.asarray(out)
+    if out.shape != shape or not isinstance(qdone, (bool, np.bool_)):
+        return {'err': True, 'exc': 'output shape %r / qdone %r' % (out.shape, type(qdone).__name__), 'out': [], 'qdone': False}
+    flat = np.ascontiguousarray(out).reshape(-1)
+    return {'err': False, 'exc': '', 'out': [p + 1 for p in range(flat.size) if not flat[p]], 'qdone': bool(qdone)}
+
+
+def rec_rejnd(rng):
+    """djs_reject on rank 2 / 3 data, every point eligible, no previous mask: grow = 0 (plain layout) and
+    grow = g in two layouts.  Nothing is asserted about which neighbourhood is grown."""
+    nd = rng.choice([2, 2, 3])
+    shape = [rng.randint(3, 5), rng.randint(3, 7)] if nd == 2 else [3, rng.randint(3, 4), rng.randint(3, 4)]
+    size = int(np.prod(shape))
+    model = [Fraction(rng.randint(-8, 8), 4) for _ in range(size)]
+    diff = [Fraction(rng.randint(-4, 4), 4) for _ in range(size)]
+    interior = [p for p in range(size) if all(0 < c < n - 1 for c, n in zip(np.unravel_index(p, shape), shape))]
+    outliers = [rng.choice(interior)] + ([rng.randrange(size)] if rng.random() < 0.4 else [])
+    if rng.random() < 0.15:
+        outliers = []
+    for p in outliers:
+        diff[p] = Fraction(rng.choice([-30, 30]))
+    args = {'shape': shape, 'data': [fr(m + d) for m, d in zip(model, diff)], 'model': [fr(m) for m in model],
+            'mode': rng.choice(['sigma', 'invvar']), 'scale': [rng.choice([1, 1, 4]) for _ in range(size)], 'lower': 5, 'upper': 5,
+            'inmask': rng.random() < 0.5}
+    grow = rng.randint(0, 3)
+    la, lb = rng.choice(['C', 'ro']), rng.choice(['F', 'F', 'F', 'strided', 'swap'])
+    r0 = rejnd_exec(args, 0, 'C')
+    return {'kind': 'rejnd', 'shape': shape, 'grow': grow, 'rej0': r0['out'], 'err0': r0['err'], 'la': la, 'lb': lb, 'args': args,
+            'a': rejnd_exec(args, grow, la), 'b': rejnd_exec(args, grow, lb)}
+
+
 def rec_nontrivial(r):
     k = r['kind']
+    if k == 'layout':
+        return r['a']['out'] != [] and r['la'] != r['lb']
+    if k == 'rejnd':
+        return r['grow'] > 0 and len(r['rej0']) > 0
     if k == 'reject':
         return len(r['out']) < r['n'] or r['err']
     if k == 'interp':
@@ -701,6 +857,9 @@ def rec_classify(r, why=''):
 
 def strip(r):
     """The part of a record that goes to TLC (JSON: no floats, no free text needed there)."""
+    if r['kind'] in ('layout', 'rejnd'):
+        ab = {k: {f: x for f, x in r[k].items() if f != 'exc'} for k in ('a', 'b')}
+        return dict({k: v for k, v in r.items() if k in ('kind', 'shape', 'grow', 'rej0')}, **ab)
     return {k: v for k, v in r.items() if k not in ('exc', 'variant', 'fulltbl', 'const')}
 
 
@@ -722,7 +881,12 @@ def run(ctx):
         'reflect median: odd width <= array length (IDL MEDIAN domain); 2-D: width 3',
         'skymask: mask values whose set bits fit the dtype below its sign bit; two generated SPPIXMASK tables; '
         'every ngrow 0..60 (quick) / 0..130 (thorough) on rows holding the whole window with isolated flagged pixels',
-        'abstraction: floats <-> rationals with 1e-12 relative tolerance on interpolated / mean values, exact elsewhere']
+        'abstraction: floats <-> rationals with 1e-12 relative tolerance on interpolated / mean values, exact elsewhere',
+        'layout independence (spec section 6): every case is handed over in one of the variants plain / read-only / strided view / '
+        'Fortran-ordered transposed view / byte-swapped / 0-d scalars, rotated by seed, expected values unchanged; pairs of calls '
+        'in two layouts are judged equal by TLC; djs_reject on rank 2-3 data: only layout independence, grow superset and the '
+        'completion flag are asserted (the N-d neighbourhood is left open)',
+        'not asserted: 1-D djs_median with a byte-swapped array (scipy.signal.medfilt raises ValueError for non-native dtypes)']
     rep = Reporter(ctx)
     groups = [['rejnum', 'interp1', 'interpnd', 'aesth', 'median', 'median2', 'sky', 'skywide'], ['reject']]
     if ctx.quick:
@@ -782,6 +946,10 @@ def run(ctx):
         recs.append(rec_median(rng))
     for _ in range(200 * scale):
         recs.append(rec_sky(ctx, rng))
+    for _ in range(250 * scale):
+        recs.append(rec_rejnd(rng))
+    for _ in range(250 * scale):
+        recs.append(rec_layout(ctx, rng))
     bad = core.validate_records(ctx, 'Trace_Reject', [strip(r) for r in recs])
     ctx.evaluated(len(recs), 'recorded')
     ctx.validated(len(recs))
@@ -791,7 +959,8 @@ def run(ctx):
     for k in sorted(bad):
         r = recs[k]
         finding = rec_classify(r, bad[k])
-        why = bad[k] + ((' (' + r['exc'] + ')') if r.get('exc') else '')
+        exc = r.get('exc') or ' / '.join(x for x in (r.get('a', {}).get('exc'), r.get('b', {}).get('exc')) if x)
+        why = bad[k] + ((' (' + exc + ')') if exc else '')
         rep.report('recorded %s %s' % (r['kind'], finding or bad[k]),
                    {'what': 'recorded %s call rejected by Trace_Reject: %s; %s' % (r['kind'], why, brief(r)),
                     'kind': 'recorded', 'record': r}, finding=finding)
@@ -805,6 +974,10 @@ def brief(c):
     keys = ('n', 'diff', 'data', 'mode', 'scale', 'lower', 'upper', 'maxdev', 'inmask', 'prev', 'sticky', 'grow', 'shape',
             'axis', 'method', 'w', 'pat', 'tbl', 'ngrow', 'dtype', 'y', 'bad', 'x', 'const', 'flux', 'ivar', 'a', 'A', 'flags',
             'out', 'qdone')
+    if 'args' in c:      # a pair of calls in two layouts
+        head = ', '.join('%s=%s' % (k, c[k]) for k in ('fn', 'la', 'lb', 'grow', 'rej0') if k in c)
+        outs = 'a=%s, b=%s' % (c['a'].get('out'), c['b'].get('out'))
+        return (head + ', ' + outs + ', ' + brief(c['args'])).replace(' ', '')[:330]
     s = ', '.join('%s=%s' % (k, c[k]) for k in keys if k in c)
     return s.replace(' ', '')[:230]
 
@@ -815,7 +988,12 @@ def replay_record(ctx, r):
     from pydl.pydlutils.math import djs_reject
     k = r['kind']
     r = dict(r)
-    if k == 'reject':
+    if k == 'layout':
+        r['a'], r['b'] = layout_exec(ctx, r['fn'], r['args'], r['la']), layout_exec(ctx, r['fn'], r['args'], r['lb'])
+    elif k == 'rejnd':
+        r['rej0'] = rejnd_exec(r['args'], 0, 'C')['out']
+        r['a'], r['b'] = rejnd_exec(r['args'], r['grow'], r['la']), rejnd_exec(r['args'], r['grow'], r['lb'])
+    elif k == 'reject':
         n = r['n']
         kw = {}
         sc = [Fraction(*q) for q in r['scale']]
@@ -870,16 +1048,17 @@ def replay(ctx, case):
     ctx.evaluated(1)
     if case.get('kind') == 'recorded' or ('call' not in case and 'record' in case):
         r, why = replay_record(ctx, case['record'])
-        print('replayed recorded call:', brief(r), '\nobserved err=%s %s\nTLC verdict: %s' % (r['err'], r.get('exc', ''), why or 'ok'))
+        print('replayed recorded call:', brief(r), '\nobserved err=%s %s\nTLC verdict: %s' % (r.get('err'), r.get('exc', ''), why or 'ok'))
         if why is not None:
             ctx.violation(dict(case, what='replay: ' + str(why)))
         return
     c, exp, conv = case['call'], case['expected'], case['conv']
     failed = []
     deferred = []
-    for cv, why, obs, finding in run_case(ctx, c, exp, 0, deferred):
+    base = conv.split('@')[0].split('/')[0]
+    for cv, why, obs, finding in run_case(ctx, c, exp, 0, deferred, lv=conv.split('@')[1] if '@' in conv else 'C'):
         print('replayed %s [%s]: observed %s -> %s' % (c['kind'], cv, obs_json(obs), why or 'conforms'))
-        if why and cv.split('/')[0] == conv.split('/')[0]:
+        if why and cv.split('@')[0].split('/')[0] == base:
             failed.append(why)
     if deferred:
         bad = core.validate_records(ctx, 'Trace_Reject', [d[3] for d in deferred])
